@@ -1,28 +1,28 @@
-SPECIFICATION FairSpec
+SPECIFICATION Spec
 CONSTANTS
-  Tables <- MCTablesQ
+  Tables <- MCTables
   Bytes <- MCBytes
-  MaxBytes = 5
-  MaxLines = 1
-  Codes <- MCCodesLive
+  MaxBytes = 8
+  MaxLines = 2
+  Codes <- MCCodes
   VarRets = {0}
   WrChoices = {TRUE}
-  RdNone = FALSE
+  RdNone = TRUE
   Trigs <- MCTrigs
-  MaxTrig = 2
-  HxSet = {}
-  MaxHx = 0
-  Queries = FALSE
+  MaxTrig = 1
+  HxSet <- HxBoth
+  MaxHx = 2
+  Queries = TRUE
   LockRets = {0}
   MaxLockFail = 0
   Toggles = {}
   MaxToggle = 0
   Edits = FALSE
-  Prefix <- NoPrefix
+  Prefix <- MCPrefix
   MaxHavoc = 0
   KeepRec = FALSE
   NestedTrigs = {}
-  EvMayHold = FALSE
+  EvMayHold = TRUE
 INVARIANT NoBad
-PROPERTY EventuallyQuiet
+INVARIANT Structural
 CHECK_DEADLOCK FALSE
